@@ -31,9 +31,7 @@ def handleIns (st : St) (op : String) (j : Json) : Option (D (St × Json)) :=
     -- `trivial`: the model's `fits_trivially(p, p, Slice([n], 0, 0))`
     | "insert" =>
       let n ← node (← field j "node")
-      let marks := match d.resolve p with
-        | some rp => (S.nodeType (S.tyOf rp.parent)).allowsMarks n.marks
-        | none => true
+      let marks := marksAllowedAt S d p n
       let trivial := fitsTriviallyO S d p p ⟨[n], 0, 0⟩ == some true
       return (st, Json.mkObj [("ok", Json.bool (insertGuard S d p n && textStableC S)),
         ("boundary", Json.bool boundary), ("inside", Json.bool (insideTextGuard S d p [n])), ("marks", Json.bool marks),
